@@ -35,6 +35,12 @@ package stdlib_contracts
 //@ func (*Value).Store
 //@ assumed
 //@ pure
+//@ func (*Value).Load
+//@ assumed
+//@ pure
+//@ func LoadUint32
+//@ assumed
+//@ pure
 
 //@ package github.com/nspcc-dev/neo-go/pkg/vm/opcode
 //@ func IsValid
